@@ -33,6 +33,7 @@ from evidence import Evidence, Verdict
 PID = "C11"
 SPEC = os.path.join(VERIF, "spec")
 JOBS = max(2, min(6, NPROC // 2))
+JOBS_THOROUGH = max(2, min(12, NPROC * 3 // 4))      # the thorough universe is ~20x the quick one; the runs are independent processes
 UUID_A = "0a0a0a0a-1b1b-4c2c-8d3d-4e4e4e4e4e4e"
 UUID_B = "b0b0b0b0-c1c1-4d2d-9e3e-f4f4f4f4f4f4"
 ORIG_UUID = mkbase.UUID
@@ -995,7 +996,7 @@ def run(tier):
                 digs[p] = dg
             t_run = time.time()
             listed = {(p, tuple(op_key(o) for o in ops)) for p, ops in seqs}
-            with cf.ThreadPoolExecutor(max_workers=JOBS) as ex:
+            with cf.ThreadPoolExecutor(max_workers=(JOBS if tier == 'quick' else JOBS_THOROUGH)) as ex:
                 res = list(ex.map(run_sequence, [(b, basedir, p, ops, work, i, digs[p], (p, tuple(op_key(o) for o in ops[1:])) in listed)
                                                  for i, (p, ops) in enumerate(seqs)]))
             _t("tool runs", t_run)
@@ -1020,7 +1021,7 @@ def run(tier):
         if bad:
             t_conf = time.time()
             order = sorted(bad)
-            with cf.ThreadPoolExecutor(max_workers=JOBS) as ex:
+            with cf.ThreadPoolExecutor(max_workers=(JOBS if tier == 'quick' else JOBS_THOROUGH)) as ex:
                 agains = list(ex.map(run_sequence, [(b, basedir, seqs[lines[bi]["seq"]][0], seqs[lines[bi]["seq"]][1], work, 900000 + bi,
                                                       digs[seqs[lines[bi]["seq"]][0]]) for bi in order]))
             flat, pos = [], {}
